@@ -365,6 +365,31 @@ def run_coef_types(case):
   return R(None, True, (tname, shape))
 
 
+# ------------------------------------------------------------ calling routes
+from ..routes import routes_agree
+
+
+def route_table():
+  T = OrderedDict()
+  c = lambda v: (lambda: v)
+  for ctor in ("ZFilter", "LinearFilter"):
+    cls = ZFilter if ctor == "ZFilter" else LinearFilter
+    filt = cls([1, 2, -1], [2, 1, -1])
+    T[ctor + ".__call__"] = (filt, [("seq", lambda: [Q(1), Q(-3), Q(2), Q(5), Q(0)]), ("memory", lambda: [Q(4), Q(-6)]),
+                                   ("zero", c(Q(3)))], lambda g: [str(Q(v).f) for v in g])
+  return T
+
+
+def gen_routes(run):
+  for name in route_table():
+    yield (name,)
+
+
+def run_routes(case):
+  f, spec, canon = route_table()[case[0]]
+  return routes_agree(case[0], f, spec, canon)
+
+
 KINDS = OrderedDict([
   ("full", Kind(gen_full, run_filter, chunk=400,
                 rule="all coefficient vectors up to the length bound; symbolic input, zero and memory")),
@@ -374,4 +399,6 @@ KINDS = OrderedDict([
                       rule="coefficient number type (complex, large int, Fraction, negative, float, bool) x filter shape x constructor x zero value, concrete integer input")),
   ("noncausal", Kind(gen_noncausal, run_noncausal, chunk=50,
                      rule="filters with a negative delay (direct or by normalisation) x input lengths")),
+  ("call-routes", Kind(gen_routes, run_routes, chunk=1,
+                       rule="each function with every documented parameter set: all positional / all keyword / every split must agree")),
 ])
